@@ -412,13 +412,23 @@ pub fn build_nodes(
 ) -> ConfigurationBuilder<EP> {
     for n in nodes {
         b = match n {
-            Node::Leaf { id, init_ops, req, ops } => b.do_(Box::new(ProbeLeaf {
-                id: *id,
-                init_ops: init_ops.clone(),
-                req: *req,
-                ops: ops.clone(),
-                sh: sh.clone(),
-            })),
+            Node::Leaf { id, init_ops, req, ops } => {
+                let leaf: Box<dyn Component<EP>> = Box::new(ProbeLeaf {
+                    id: *id,
+                    init_ops: init_ops.clone(),
+                    req: *req,
+                    ops: ops.clone(),
+                    sh: sh.clone(),
+                });
+                // exercise every way the builder accepts a component (the choice is a function
+                // of the node id only, so a case always builds the same configuration)
+                match id % 4 {
+                    0 => b.do_if_some_(None).do_if_some_(Some(leaf)),
+                    1 => b.do_many_(vec![leaf]),
+                    2 => b.do_many_(Vec::new()).do_(leaf),
+                    _ => b.do_(leaf),
+                }
+            }
             Node::While { cond, body, .. } => {
                 b.while_(build_cond(cond, sh), |bb| build_nodes(body, sh, bb))
             }
